@@ -63,9 +63,85 @@ Case(h) ==
                   f \in Files(h), i \in {j \in Secs(h) : Sections[j] \notin NoAccessor}},
      probes |-> UNION {{Probe(i, f, 0), Probe(i, f, 3), Probe(i, f, 7 + i)} : f \in Files(h), i \in Secs(h)}]
 
+(*------------------------- DWARF package (.dwp) ----------------------------*)
+(* A package holds one buffer per section plus a unit index (encoded with    *)
+(* Lookup.tla's EncIndex).  For the unit in row r, DwarfPackage::cu_sections *)
+(* / find_cu / tu_sections / find_tu hand back a Dwarf whose section for     *)
+(* every index column is the zero-copy view [off, off+size) of the package   *)
+(* section (Section::dwp_range = skip(off); truncate(size) in Reader.tla),   *)
+(* .debug_str is the whole package section, package sections without a       *)
+(* column are the empty view at 0; a contribution reaching beyond its        *)
+(* section is an error.  Offset ids inside a contribution resolve, in the    *)
+(* unit's Dwarf, to the offset relative to the contribution.                 *)
+LK == INSTANCE Lookup
+PkgVers == {5, 2}
+Cols(ver) == IF ver = 5 THEN <<1, 3, 4, 5, 6, 7, 8>> ELSE <<1, 2, 3, 4, 5, 6, 7, 8>>
+ColName(ver, code) ==
+    IF ver = 5 THEN CASE code = 1 -> ".debug_info" [] code = 3 -> ".debug_abbrev" [] code = 4 -> ".debug_line"
+                      [] code = 5 -> ".debug_loclists" [] code = 6 -> ".debug_str_offsets"
+                      [] code = 7 -> ".debug_macro" [] code = 8 -> ".debug_rnglists"
+    ELSE CASE code = 1 -> ".debug_info" [] code = 2 -> ".debug_types" [] code = 3 -> ".debug_abbrev"
+           [] code = 4 -> ".debug_line" [] code = 5 -> ".debug_loc" [] code = 6 -> ".debug_str_offsets"
+           [] code = 7 -> ".debug_macinfo" [] code = 8 -> ".debug_macro"
+PkgHeld == <<".debug_abbrev", ".debug_info", ".debug_line", ".debug_macinfo", ".debug_macro", ".debug_str",
+             ".debug_str_offsets", ".debug_loc", ".debug_loclists", ".debug_rnglists", ".debug_types">>
+NUnits == 3
+CSize(r, ci) == 2 + r + (ci % 3)
+RECURSIVE COff(_, _)
+COff(r, ci) == IF r = 1 THEN 0 ELSE COff(r - 1, ci) + CSize(r - 1, ci)
+ColLen(ci) == COff(NUnits + 1, ci) + 2                      \* two trailing bytes owned by nobody
+ColBytes(ci) == [j \in 1..ColLen(ci) |-> (31 * ci + 7 * j) % 256]
+(* row NUnits+1 reaches beyond every section *)
+Row(ver, r) == [ci \in DOMAIN Cols(ver) |->
+                  IF r <= NUnits THEN [off |-> FromNat(COff(r, ci), 4), size |-> FromNat(CSize(r, ci), 4)]
+                  ELSE [off |-> FromNat(ColLen(ci) - 1, 4), size |-> FromNat(5, 4)]]
+PkgIndex(ver) == [ver |-> ver, cols |-> Cols(ver),
+                  slots |-> [i \in 1..8 |-> IF i >= 2 /\ i <= NUnits + 2
+                                            THEN [id |-> FromNat(i - 1, 8), row |-> FromNat(i - 1, 4)]
+                                            ELSE [id |-> Zero(8), row |-> Zero(4)]],
+                  rows |-> [r \in 1..(NUnits + 1) |-> Row(ver, r)]]
+ColOf(ver, name) == {ci \in DOMAIN Cols(ver) : ColName(ver, Cols(ver)[ci]) = name}
+HeldBytes(ver, i) == LET cs == ColOf(ver, PkgHeld[i]) IN
+                     IF cs # {} THEN ColBytes(CHOOSE ci \in cs : TRUE)
+                     ELSE [j \in 1..(5 + i) |-> (200 + 11 * i + j) % 256]
+(* Section::dwp_range as Reader steps on the whole-section window *)
+DwpRange(b, off, size) ==
+    LET t0 == <<Mk(0, Len(b), FALSE)>>
+        x1 == Step(b, TRUE, t0, O("skip", 1, off, 0, 0))
+        x2 == Step(b, TRUE, x1.hs, O("truncate", 1, size, 0, 0)) IN
+    IF x1.res.k = "ok" /\ x2.res.k = "ok" THEN [ok |-> TRUE, w |-> x2.hs[1]] ELSE [ok |-> FALSE]
+UnitExp(ver, r) ==
+    LET rng == [i \in DOMAIN PkgHeld |->
+                  LET b  == HeldBytes(ver, i)
+                      cs == ColOf(ver, PkgHeld[i]) IN
+                  IF cs # {} THEN LET ci == CHOOSE q \in cs : TRUE IN
+                                  DwpRange(b, ToNat(Row(ver, r)[ci].off), ToNat(Row(ver, r)[ci].size))
+                  ELSE IF PkgHeld[i] = ".debug_str" THEN [ok |-> TRUE, w |-> Mk(0, Len(b), FALSE)]
+                  ELSE DwpRange(b, 0, 0)] IN
+    IF \E i \in DOMAIN PkgHeld : ~rng[i].ok THEN [ok |-> FALSE]
+    ELSE [ok |-> TRUE,
+          views |-> {[sec |-> PkgHeld[i], bytes |-> Bytes(HeldBytes(ver, i), rng[i].w), ptr |-> rng[i].w.s,
+                      borrowed |-> TRUE] : i \in {j \in DOMAIN PkgHeld : PkgHeld[j] \notin NoAccessor}},
+          (* an id one byte into each contribution resolves to offset 1 of the unit's section *)
+          probes |-> {[sec |-> PkgHeld[i], at |-> rng[i].w.s + 1, res |-> <<FALSE, PkgHeld[i], 1>>] :
+                        i \in {j \in DOMAIN PkgHeld : ColOf(ver, PkgHeld[j]) # {}}}]
+PkgCase(ver) ==
+    [sys |-> "dwp", ver |-> ver, index |-> LK!EncIndex(PkgIndex(ver), TRUE),
+     sections |-> [i \in DOMAIN PkgHeld |-> <<PkgHeld[i], HeldBytes(ver, i)>>],
+     units |-> [r \in 1..(NUnits + 1) |-> [row |-> r, id |-> FromNat(r, 8), exp |-> UnitExp(ver, r)]]]
+PkgOK(ver) == /\ LK!IndexParse(PkgIndex(ver)).ok
+              /\ \A r \in 1..NUnits : UnitExp(ver, r).ok
+              /\ ~UnitExp(ver, NUnits + 1).ok
+              (* the view of a contribution is SubSeq of the package section *)
+              /\ \A r \in 1..NUnits : \A v \in UnitExp(ver, r).views :
+                    \A ci \in ColOf(ver, v.sec) :
+                       v.bytes = SubSeq(ColBytes(ci), COff(r, ci) + 1, COff(r, ci) + CSize(r, ci))
+
 Init == c = "none" /\ buf = <<>> /\ le = TRUE /\ hs = <<>> /\ res = OkUnit
-Next == c = "none" /\ c' \in Hows /\ UNCHANGED rvars
-Inv == c # "none" =>
+Next == c = "none" /\ (c' \in Hows \/ c' \in {"dwp5", "dwp2"}) /\ UNCHANGED rvars
+PkgInv == /\ c = "dwp5" => (PkgOK(5) /\ PrintT(<<"CASE", ToJson(PkgCase(5))>>))
+          /\ c = "dwp2" => (PkgOK(2) /\ PrintT(<<"CASE", ToJson(PkgCase(2))>>))
+Inv == c \in Hows =>
          /\ \A i \in DOMAIN Sections : \A k \in 0..(8 + i) : Resolve(Content(i, FALSE), k) = OkN(k)
          /\ \A i, j \in DOMAIN Sections : i # j => Content(i, FALSE) # Content(j, FALSE)
          /\ PrintT(<<"CASE", ToJson(Case(c))>>)
